@@ -452,7 +452,7 @@ func datastoreScenario(w *rec.Writer, e *env, d desc) {
 		s := pick(rawStores)
 		m := pick(rawModels)
 		if r.Chance(1, 2) {
-			as := genAssertions(r, nil2(w))
+			as := genAssertions(r, w)
 			sent := recAsrts(as, nil, nil)
 			err := e.raw.WriteAssertions(ctx, prefix+s, m, cloneAll(as))
 			ops = append(ops, rec.L(rec.I(opWrite), rec.S(s), rec.S(m), sent, rec.I(sh.ErrClass(err)), rec.L()))
@@ -479,7 +479,6 @@ func datastoreScenario(w *rec.Writer, e *env, d desc) {
 	w.Case(d, rec.I(0), rec.I(bk), rec.L(ops...))
 }
 
-func nil2(w *rec.Writer) *rec.Writer { return w }
 
 func main() {
 	o := rec.ParseFlags()
